@@ -22,3 +22,26 @@ Definition tok_res {E A} (fe : E -> Z) (fa : A -> list tok) (r : res E A) : list
   end.
 Definition tbool (b : bool) : tok := TZ (if b then 1 else 0).
 Definition bad_args : list tok := [TZ (-1)].
+
+(* ---- a small parser over token lists ---- *)
+Definition parser (A : Type) := list tok -> option (A * list tok).
+Definition pret {A} (a : A) : parser A := fun ts => Some (a, ts).
+Definition pbind {A B} (p : parser A) (f : A -> parser B) : parser B :=
+  fun ts => match p ts with Some (a, ts') => f a ts' | None => None end.
+Notation "'let*' x := p 'in' k" := (pbind p (fun x => k)) (at level 200, x pattern, p at level 100, k at level 200).
+Definition pZ : parser Z := fun ts => match ts with TZ z :: r => Some (z, r) | _ => None end.
+Definition pN : parser N := fun ts => match ts with TZ z :: r => Some (Z.to_N z, r) | _ => None end.
+Definition pnat : parser nat := fun ts => match ts with TZ z :: r => Some (Z.to_nat z, r) | _ => None end.
+Definition pbool : parser bool := fun ts => match ts with TZ z :: r => Some (negb (Z.eqb z 0), r) | _ => None end.
+Definition pB : parser bytes := fun ts => match ts with TB b :: r => Some (b, r) | _ => None end.
+Fixpoint prep {A} (n : nat) (p : parser A) : parser (list A) :=
+  match n with
+  | O => pret []
+  | S n' => let* a := p in let* r := prep n' p in pret (a :: r)
+  end.
+(* count-prefixed list *)
+Definition plist {A} (p : parser A) : parser (list A) := let* n := pnat in prep n p.
+Definition run_parser {A} (p : parser A) (ts : list tok) : option A :=
+  match p ts with Some (a, []) => Some a | _ => None end.
+Definition tN (n : N) : tok := TZ (Z.of_N n).
+Definition tnat (n : nat) : tok := TZ (Z.of_nat n).
